@@ -300,6 +300,10 @@ class Interp:
                 if 0 <= i < len(base):
                     return base[i]
                 raise Undecided("index %d out of bounds (a panic in the analysed code)" % i)
+            if isinstance(base, HMap) and not isinstance(i, Opaque):
+                if i in base:
+                    return base[i]
+                raise Undecided("map index %r absent (a panic in the analysed code)" % (i,))
             if self.call is not None:
                 r = self.call(n, base, [i], self, env)
                 if r is not None:
@@ -1015,6 +1019,10 @@ class Interp:
             a = self.ev(n["args"][0], env)
             if isinstance(a, str):
                 return a
+            if short(n.get("callee", ""), 2) == "From::from" and "Box<" in str(n.get("ty", "")) and not isinstance(a, Opaque):
+                return a        # Box::from(x): the box is its content
+        if len(n["args"]) == 1 and short(n.get("callee", ""), 2) in ("Box::new", "Rc::new", "Arc::new", "Box::from", "Rc::from", "RefCell::new", "Cell::new"):
+            return self.ev(n["args"][0], env)
         f = n["f"]
         if f["k"] == "Path" and f.get("rk") == "Local":
             return self.apply(self.ev(f, env), [self.ev(a, env) for a in n["args"]])
